@@ -507,6 +507,46 @@ std::string ruleName(Issue::ReferenceRule r)
     return "R" + std::to_string(static_cast<int>(r));
 }
 
+std::string rejectionKey(const Logger &validator)
+{
+    if (validator.issueCount() == 0) {
+        return "none";
+    }
+    auto is = validator.issue(0);
+    std::string d = is->description();
+    std::string key = ruleName(is->referenceRule());
+    bool onlyImportSources = d.find("Duplicated identifier attribute") != std::string::npos && d.find("import source for") != std::string::npos;
+    for (size_t pos = d.find("\n - "); pos != std::string::npos && onlyImportSources; pos = d.find("\n - ", pos + 1)) {
+        onlyImportSources = d.compare(pos + 4, 17, "import source for") == 0;
+    }
+    if (onlyImportSources) {
+        return key + ":ids-of-import-sources-only";
+    }
+    return key + mismatchOfZero(d);
+}
+
+std::string mismatchOfZero(const std::string &d)
+{
+    size_t mm = d.find("The mismatch is: ");
+    if (mm == std::string::npos) {
+        return "";
+    }
+    // "<base>^<n>, ... [multiplication factor of 10^<m>]." with every <n> equal to 0 (or -0)
+    std::string rest = d.substr(mm + 17);
+    rest = rest.substr(0, rest.find('\n'));
+    rest = rest.substr(0, rest.find("multiplication factor")); // reported along with a base mismatch, never on its own
+    bool allZero = true;
+    bool any = false;
+    for (size_t p = rest.find('^'); p != std::string::npos; p = rest.find('^', p + 1)) {
+        size_t e = rest.find_first_of(",.", p);
+        std::string n = rest.substr(p + 1, e == std::string::npos ? std::string::npos : e - p - 1);
+        any = true;
+        allZero = allZero && (n == "0" || n == "-0");
+    }
+    return any && allZero ? ":mismatch-of-zero" : "";
+}
+
+
 static std::string itemTypeName(const IssuePtr &is)
 {
     auto it = is->item();
